@@ -136,8 +136,41 @@ def req_failed_send_cases(n0):
     return out
 
 
+def rep_same_identity_cases(n0):
+    """two connections announce the SAME identity to one REP (a client that reconnects before its old connection's end was
+    seen; two clients configured alike): the reply goes to the connection the request CAME FROM — the newest one under
+    that identity, which is the one REP reads from — and nothing to the other"""
+    out = []
+    n = n0
+    for old_state in ("idle", "answered", "eof"):
+        for peer in ("REQ", "DEALER"):
+            sc = wg.Script()
+            sc.sock(1, "REP")
+            sc.attach(1, 1, peer, b"worker")
+            sc.add("wire 1")
+            if old_state != "idle":
+                sc.reveal_msg(1, [b"", b"a1"])
+                sc.recv_once(1)
+                sc.send_once(1, [b"ra1"])
+                sc.add("wire 1")
+            if old_state == "eof":
+                sc.add("eof 1")
+            sc.attach(1, 2, peer, b"worker")
+            sc.add("wire 2")
+            sc.reveal_msg(2, [b"", b"b1"])
+            f = sc.recv_once(1)
+            g = sc.send_once(1, [b"rb1"])
+            sc.add("wire 1", "wire 2")
+            c = sc.case(f"rep-same-identity-{old_state}-{peer}#{n}", ["rep-same-identity"])
+            c.expect = ("rep-same-identity", f, g)
+            out.append(c)
+            n += 1
+    return out
+
+
 def cases(tier, rng):
     out = gen.corpus(ID)
+    out += rep_same_identity_cases(920000)
     out += req_failed_send_cases(910000)
     # safety net: seeded random schedules of these socket types over scripted pipes (partial reads, back-pressure,
     # errors, futures polled once or twice and then ABANDONED, sockets dropped) — every line predicted by the World model
@@ -169,6 +202,19 @@ def oracle(case, lines):
         return None
     it = iter(zip(case.ops, lines[1:]))
     res = list(it)
+    if case.expect[0] == "rep-same-identity":
+        _, f, g = case.expect
+        rf = [l for op, l in res if op == f"poll {f}"][-1]
+        rg = [l for op, l in res if op == f"poll {g}"][-1]
+        w1 = [l for op, l in res if op == "wire 1"][-1]
+        w2 = [l for op, l in res if op == "wire 2"][-1]
+        if rf != "ready ok M[" + wg.show_frames([b"b1"]) + "]":
+            return f"the request made on the new connection was not received: {rf[:80]}"
+        if w1 != "wire .":
+            return f"the reply to a request that came from the NEW connection was written to the OLD connection of that identity: {w1[:80]}"
+        if rg != "ready ok" or w2 != "wire " + wg.show_wire([[b"", b"rb1"]]):
+            return f"the connection the request came from did not get the reply: send={rg[:40]} wire={w2[:60]}"
+        return None
     if case.expect[0] == "req-failed-send":
         _, nsrv, then = case.expect
         polls = [(op, l) for op, l in res if op.startswith("poll") and not l.startswith("ready ok id=")]
